@@ -13,7 +13,10 @@
        with H3_REQUEST_REJECTED on both halves,
      - a request stream taken from the transport is either shown or refused (never lost), and
        accept() does not answer "pending" while a request stream is waiting.
-   Together: for arrivals after G, shown <-> id < G. *)
+   Together: for arrivals after G, shown <-> id < G.
+   Closing clause: when accept() answers "no more requests" it will serve nothing further, so by then a GOAWAY
+   must be on the wire whose identifier promises no request beyond those served: the last identifier is at most
+   the first request id after the largest one shown (0 when none was shown). *)
 From H3V Require Import Base.Bytes.
 
 Definition rfc_H3_REQUEST_REJECTED : N := 267.   (* 0x010b, RFC 9114 8.1 *)
@@ -76,6 +79,17 @@ Definition nothing_lost (t : list gev) : Prop :=
 Definition line (t : list gev) : Prop :=
   wire_nonincreasing t /\ shown_below_every_goaway t /\ rejected_only_beyond t /\ nothing_lost t.
 
+(* closing clause *)
+Definition opt_max (a : option N) (x : N) : option N :=
+  match a with None => Some x | Some y => Some (N.max y x) end.
+Definition top_step (a : option N) (e : gev) : option N :=
+  match e with EShown id => opt_max a id | _ => a end.
+Definition top_shown (t : list gev) : option N := fold_left top_step t None.
+Definition first_unserved (top : option N) : N := match top with Some t => t + 4 | None => 0 end.
+Definition closing_goaway (t : list gev) : Prop :=
+  forall a b, t = a ++ ENone :: b ->
+    exists g, last_wire a = Some g /\ g <= first_unserved (top_shown a).
+
 (* ---------- the same line as a one-pass monitor (used as the oracle on real traces) ---------- *)
 
 Record mon := { m_wire : option N;      (* last GOAWAY id seen *)
@@ -84,8 +98,6 @@ Record mon := { m_wire : option N;      (* last GOAWAY id seen *)
 Definition mon0 : mon := {| m_wire := None; m_top := None; m_wait := [] |}.
 
 Definition opt_lt (a : option N) (g : N) : bool := match a with None => true | Some x => x <? g end.
-Definition opt_max (a : option N) (x : N) : option N :=
-  match a with None => Some x | Some y => Some (N.max y x) end.
 Definition memb (x : N) (l : list N) : bool := existsb (N.eqb x) l.
 Definition code_is (c : option N) (k : N) : bool := match c with Some x => x =? k | None => false end.
 
@@ -106,6 +118,11 @@ Definition mon_step (m : mon) (e : gev) : option mon :=
       then Some {| m_wire := m_wire m; m_top := m_top m; m_wait := remove1 id (m_wait m) |} else None
   | ELost _ => None
   | EPending => match m_wait m with [] => Some m | _ => None end
+  | ENone =>
+      match m_wire m with
+      | Some g => if g <=? first_unserved (m_top m) then Some m else None
+      | None => None
+      end
   | _ => Some m
   end.
 
